@@ -48,3 +48,15 @@ CLAIMS["C06"] = (
     "the adapters' defining equations are their model (tied by exact correspondence on a user cost with an extra hyper-parameter depending on the multiset of rows, batch and single evaluation); multivariate-Gaussian log-det inequalities are NOT proved (numeric check only); Gaussian statements assume variance above the 1e-16 floor as the property does.",
     "3/C06",
 )
+CLAIMS["C04"] = (
+    "Lean 4 corollaries of the algorithm theorems (well-formedness of every model output) + exact correspondences of the algorithm models + structure predicate on all seven detectors",
+    "Theorems pelt_changepoints_wellformed, capa_anomalies_wellformed, sbs_changepoint_in_range (+ sbs_min_gap of C07), cbs_anomaly_strictly_inside (+ disjointness of C09), mw_above_threshold_in_band, validFrom_elementwise, validAnoms_elementwise in Skc/Props/C04.lean: for all inputs the models' changepoints / anomalies satisfy the ordering, range and length limits the property states.",
+    "pandas-level formatting (RangeIndex, int64, left-closed IntervalIndex, labels 1..K) and StatThresholdAnomaliser (C17) are observed by the harness, not modelled; strict monotonicity of moving-window changepoints across runs follows from `where` returning disjoint runs in scan order, which is tied by correspondence (C08), the Lean theorem covers the band only.",
+    "3/C04",
+)
+CLAIMS["C16"] = (
+    "Lean 4 proof about the subset-selection model (sorted-permutation + first-argmax-of-cumulative-sum) + exact model/code correspondence on table savings with distinct columns",
+    "Theorem affected_columns_optimal (Skc/Props/C16.lean): for every saving vector and penalties the model's affected columns are the first k+1 columns in decreasing order of saving with k maximising the cumulative penalised saving, non-empty, duplicate-free, valid positions, and no excluded column beats an included one. Dense marking is C05's subS2D, tied by correspondence.",
+    "ties between savings are excluded as in the property (argsort order among ties unspecified); the sparse penalty used for collective anomalies is the built-in one made exact through the scale; transform's marking is checked by the oracle and C05.",
+    "3/C16",
+)
